@@ -54,6 +54,25 @@ def st_program(tier2=False, with_mem=True, domains=("sys",), max_sigs=6):
                 return ["cat", [["s", draw(st.sampled_from(avail))] for _ in range(draw(st.integers(2, 3)))]]
             if k == 8:
                 return ["rep", ["s", draw(st.sampled_from(avail))], draw(st.integers(1, 3))]
+            if draw(st.booleans()):
+                # slice of a Cat / Replicate (complex slice: lowered by the back end, incl. slices that overhang an
+                # element boundary by one bit or more)
+                parts = [draw(st.sampled_from(avail)) for _ in range(draw(st.integers(2, 3)))]
+                if draw(st.integers(0, 3)) == 0:
+                    n = draw(st.integers(1, 3))
+                    inner = ["rep", ["s", parts[0]], n]
+                    total = sigs[parts[0]]["w"] * n
+                else:
+                    inner = ["cat", [["s", p_] for p_ in parts]]
+                    total = sum(sigs[p_]["w"] for p_ in parts)
+                bounds = [0]
+                for p_ in parts:
+                    bounds.append(bounds[-1] + sigs[p_]["w"])
+                a = draw(st.one_of(st.integers(0, total - 1), st.sampled_from([max(0, b_ - 1) for b_ in bounds[1:]] + [max(0, b_ - 2) for b_ in bounds[1:]])))
+                a = min(a, total - 1)
+                b = draw(st.one_of(st.integers(a + 1, total), st.sampled_from([min(total, b_ + 1) for b_ in bounds[1:]])))
+                b = max(a + 1, min(b, total))
+                return ["sl", inner, a, b]
             s_ = draw(st.sampled_from(avail))
             return ["sl", ["s", s_], 0, sigs[s_]["w"]]          # full-width slice
 
@@ -122,6 +141,10 @@ def st_program(tier2=False, with_mem=True, domains=("sys",), max_sigs=6):
                 a = draw(st.integers(0, w - 1))
                 b = draw(st.integers(a + 1, w))
                 return ["sl", ["s", t], a, b]
+            if k == 1 and w >= 2:
+                # Cat of two slices of the target on the left-hand side
+                cut = draw(st.integers(1, w - 1))
+                return ["cat", [["sl", ["s", t], 0, cut], ["sl", ["s", t], cut, w]]]
             return ["s", t]
 
         def stmts(targets, avail, depth):
@@ -163,7 +186,7 @@ def st_program(tier2=False, with_mem=True, domains=("sys",), max_sigs=6):
                     body["sync"][d].append(stmts(ts, avail, 0))
         mems = []
         if with_mem and draw(st.integers(0, 2)) == 0:
-            width = draw(st.sampled_from([4, 8, 12, 16]))
+            width = draw(st.sampled_from([4, 8, 12, 16, 5, 9, 10]))
             depth = draw(st.sampled_from([2, 4, 8]))
             gran = draw(st.sampled_from([0, 0, 4, 8]))
             if gran and width % gran:
@@ -190,7 +213,7 @@ def st_program(tier2=False, with_mem=True, domains=("sys",), max_sigs=6):
                 for p_ in ports:
                     if not p_["async"]:
                         p_["mode"] = "READ_FIRST"
-            init = draw(st.one_of(st.none(), st.lists(st.integers(0, _m(width)), min_size=0, max_size=depth)))
+            init = draw(st.one_of(st.none(), st.lists(st.one_of(st.integers(0, _m(width)), st.just(_m(width)), st.just(1 << (width - 1))), min_size=0, max_size=depth)))
             mems.append({"w": width, "d": depth, "init": init, "ports": ports})
         ncyc = draw(st.integers(6, 24))
         stim = []
